@@ -38,7 +38,7 @@ RULE = ("worlds of 3 real IdentityCommunity nodes + 2 node-less third-party keys
         "(cross-subject registration, expiry boundary, third-party attestation stored first, replay, long chain, "
         "sha1, fixed-metadata, wrong-name, tainted disclosure, restart over the same database with a new or the old "
         "IdentityManager (third party's row first / own row stored / own row plus a row of another subject for the same "
-        "metadata), stale-plus-fresh registration, orphan flood beyond the 100-token cap, registration without a JSON form, chain with one forged link delivered out of order, metadata over a bad token then restart, refused advertise call then chain growth, none) followed by 25-45 seeded events drawn from: add_known_hash (any subject incl. "
+        "metadata), stale-plus-fresh registration, orphan flood beyond the 100-token cap, registration without a JSON form, chain with one forged link delivered out of order, metadata over a bad token then restart, refused advertise call then chain growth, two keys behind one network address, none) followed by 25-45 seeded events drawn from: add_known_hash (any subject incl. "
         "third parties, 5 hashes + one 20-byte hash, 3 names, 5 metadata dicts), request_attestation_advertisement, "
         "self_advertise (single / bulk), deliver / replay / drop of captured packets, restarts, clock steps in multiples of "
         "1/8 s incl. exactly +299.875, +300, +300.125 and +301 s after a registration, registered and disclosed metadata "
@@ -133,6 +133,7 @@ class World:
         self.by_addr = {a: k for k, a in self.addr.items()}
         for k, n in self.nodes.items():
             n.endpoint.send = self._mk_send(k)
+        self.observation_failed = None
         self.seen_attr, self.seen_tok = set(), set()
         self.ever_chain = {}
         self._rows_before = {}
@@ -360,11 +361,20 @@ class World:
         return rows, known, perms
 
     def check_dump(self, v):
-        rows, known, perms = self.dump(v)
+        try:
+            rows, known, perms = self.dump(v)
+        except Exception as exc:      # private state changed shape: a failed observation, not an infrastructure error
+            rows, known, perms = None, None, None
+            self.observation_failed = "state of node %d unreadable: %s: %s" % (v, type(exc).__name__, exc)
         self.lines.append("X %d" % v)
         self.expect.append(("dump", rows, known, perms))
 
-    def out_str(self, p: Pkt) -> str:
+    def out_str(self, p: Pkt, to=None) -> str:
+        """canonical form of an emitted packet; `to` = key of the peer it answers (a reply is addressed to the authenticated
+        sender of the message being handled, whatever network address that message came from)"""
+        if to is not None:
+            q = Pkt(p.src, to, p.data, p.kind, p.body)
+            return self.out_str(q)
         if p.kind == 2:
             att = p.body.attestation
             return "A%d:%d" % (p.dst, self.hid(att[:32]))
@@ -414,7 +424,7 @@ class World:
 
     def oracle_attest(self, v, trigger, e, now):
         self.ctx.count("oracle:attest-judged")
-        p = e.dst
+        p = trigger.src if trigger is not None else e.dst
         mp = e.body.attestation[:32]
         tag = f"node {v} attested metadata #{self.hid(mp)} for subject {p} at t={now}"
         if trigger is None or trigger.kind not in (1, 4) or trigger.src != p:
@@ -502,7 +512,8 @@ class World:
             self.fail(site + ":expired", tag + f" but the matching registrations were made at {[r['t'] for r in c4]}")
 
     def oracle_tokens_out(self, s, trigger, e, api):
-        p = e.dst
+        # who is being served: the authenticated sender of the request (its key), not whoever owns the address
+        p = trigger.src if (trigger is not None and e.kind == 4) else e.dst
         toks, _ = self.parse_tokens(e.body.tokens)
         self.ctx.count("oracle:handout-judged:%s:%s" % ("missing_response" if e.kind == 4 else "disclose",
                                                         "empty" if not toks else "tokens"))
@@ -683,16 +694,20 @@ class World:
         self.oracle_outputs(s, None, self.queue[q0:], api="selfadv")
         self.ctx.count("ev:self_advertise")
 
-    def ev_deliver(self, pkt: Pkt, replayed=False):
+    def ev_deliver(self, pkt: Pkt, replayed=False, via=None):
+        """hand the packet to its destination; `via` = node whose network address the packet appears to come from (two
+        keys behind one address: shared endpoint, tunnel exit, re-used NAT mapping); default: the sender's own address"""
         v = pkt.dst
         if v is None:
             return
+        if via is not None and via != pkt.src:
+            self.ctx.count("deliver:via-address-of-another-key")
         self.ctx.count("ev:deliver:%s%s" % ({1: "disclose", 2: "attest", 3: "request_missing", 4: "missing_response"}
                                             .get(pkt.kind, "other"), ":replay" if replayed else ""))
         before = self.rows(v)
         self._rows_before[v] = before
         q0 = len(self.queue)
-        self.nodes[v].endpoint.notify_listeners((self.addr[pkt.src], pkt.data))
+        self.nodes[v].endpoint.notify_listeners((self.addr[via if via is not None else pkt.src], pkt.data))
         emitted = self.queue[q0:]
         after = self.rows(v)
         if pkt not in self.history:
@@ -737,7 +752,7 @@ class World:
                                                  "beyond" if pkt.body.known >= opened else "within"))
         else:
             return
-        outs = sorted(self.out_str(e) for e in emitted)
+        outs = sorted(self.out_str(e, to=pkt.src) for e in emitted)
         self.expect.append(" ".join(outs) or "-")
         for e in emitted:
             self.ctx.count("out:" + {1: "disclose", 2: "attest", 3: "request_missing", 4: "missing_response"}[e.kind])
@@ -1007,16 +1022,24 @@ class Gen:
             w.queue.remove(e)
             w.ev_deliver(e)
 
-    def craft_request(self, p, s, known=None):
+    def craft_request(self, p, s, known=None, via=None):
         w, rng = self.w, self.rng
         n = len(w.chain[s])
+        if via is None and rng.random() < 0.15:
+            # from the network address of another key, preferably one the owner opened its chain to
+            opened = [k for k in w.perm[s] if k != p and k in w.nodes]
+            via = rng.choice(opened) if opened else rng.choice([k for k in w.nodes if k not in (p, s)] or [None])
+        if via is not None and via != p:
+            w.ctx.count("request_missing:via-other-address:" +
+                        ("requester-permitted" if p in w.perm[s] else "requester-unpermitted") + ":" +
+                        ("address-permitted" if via in w.perm[s] else "address-unpermitted"))
         if known is None:
             known = rng.choice([0, 0, 1, max(0, n - 1), n, n + 1, rng.randint(0, n + 2), w.perm[s].get(p, 0)])
-        w.trace.append({"op": "craft_request", "p": p, "s": s, "known": known})
+        w.trace.append({"op": "craft_request", "p": p, "s": s, "known": known, "via": via})
         w.ctx.count("ev:craft:request_missing")
         for e in w.craft(p, s, w.P.RequestMissingPayload(known), "crafted request"):
             w.queue.remove(e)
-            w.ev_deliver(e)
+            w.ev_deliver(e, via=via)
 
     def craft_missing_response(self, p, v):
         w, rng = self.w, self.rng
@@ -1143,6 +1166,29 @@ class Gen:
             for e in w.craft(a, v, pl, "stale and fresh credential"):
                 w.queue.remove(e)
                 w.ev_deliver(e)
+        elif kind == "shared-address":
+            # a opens its chain to b only; another key (v) asks from b's network address, and b asks from v's address:
+            # the permission belongs to the KEY that signed the request, not to the address it came from
+            for i in range(rng.randint(1, 3)):
+                w.ev_selfadv(a, sha3(b"own%d" % i), "own")
+            w.ev_advert(a, b, h1, name, None)
+            w.trace.append({"op": "opener", "kind": kind})
+            for k in (0, 1):
+                self.craft_request(v, a, known=k, via=b)       # unpermitted key, permitted address
+                self.craft_request(b, a, known=k, via=v)       # permitted key, foreign address
+                self.craft_request(b, a, known=k, via=b)
+            if self.pick([False, True]):
+                # the same for a disclosure: v holds a registration for a; b sends a's genuine disclosure from a's address
+                w.ev_reg(v, h2, name, a, None)
+                w.ev_advert(a, v, h2, name, None)
+                pk = [e for e in w.queue if e.kind == 1 and e.src == a and e.dst == v]
+                for e in pk:
+                    w.queue.remove(e)
+                    for e2 in w.craft(b, v, w.P.DisclosePayload(e.body.metadata, e.body.tokens, b"", b""), "a's disclosure, signed by b"):
+                        w.queue.remove(e2)
+                        w.ev_deliver(e2, via=a)
+                    w.ev_deliver(e)
+            self.flush()
         elif kind == "refused-advert-then-growth":
             # a opens (or not) its chain to b, then a request to b that the library refuses, then the chain grows for
             # other reasons, then b asks for everything: b may only get what was opened by SUCCESSFUL requests
@@ -1435,7 +1481,8 @@ class Gen:
 OPENERS = ["cross-subject", "expiry", "third-party-first", "replay", "long-chain", "sha1", "fixed-metadata",
            "wrong-name", "tainted", "restart", "stale-plus-fresh", "orphan-flood",
            "unserialisable-registration", "forged-out-of-order",
-           "bad-token-then-restart", "refused-advert-then-growth", "none"]
+           "bad-token-then-restart", "refused-advert-then-growth",
+           "shared-address", "none"]
 
 
 async def run_world(ctx: Ctx, loop, use_model: bool, opener: str, n_events: int, world_seed: int, vidx: int = 0):
@@ -1447,10 +1494,18 @@ async def run_world(ctx: Ctx, loop, use_model: bool, opener: str, n_events: int,
         g.vidx = vidx
         w.vidx = vidx
         ctx.count("opener:" + opener)
-        g.opener(opener)
-        for _ in range(n_events):
-            g.random_event()
-        g.flush(limit=20)
+        try:
+            g.opener(opener)
+            for _ in range(n_events):
+                g.random_event()
+            g.flush(limit=20)
+        except InfraError:
+            raise
+        except Exception as exc:       # the harness reads private state / calls APIs of the tree under test: if that
+            import traceback           # fails, the observation failed - a broken correspondence, never exit 2
+            tb = traceback.extract_tb(exc.__traceback__)[-1]
+            w.observation_failed = "%s: %s (at %s:%d)" % (type(exc).__name__, exc, tb.filename.split("/")[-1], tb.lineno)
+            ctx.count("world:observation-failed")
     finally:
         for n in list(w.nodes.values()) + w.retired:
             await n.stop()
@@ -1494,6 +1549,9 @@ def run_worlds(ctx: Ctx, n_worlds: int, use_model: bool):
             n_events = ctx.rng.randint(25, 45)
             ws = ctx.rng.getrandbits(32)
             w = loop.run_until_complete(run_world(ctx, loop, use_model, opener, n_events, ws, i // len(OPENERS)))
+            if w.observation_failed:
+                ctx.disagree("the harness could not observe the implementation (private state or an API it reads "
+                             "changed shape): " + w.observation_failed, {"opener": opener, "world_seed": ws})
             if use_model:
                 d = ctx.driver()
                 replies = d.batch(w.lines)
@@ -1521,26 +1579,32 @@ async def run_matrix_world(ctx: Ctx, loop, use_model, combo, world_seed):
     w = World(ctx, loop, use_model, world_seed)
     w.opener, w.n_events = "matrix:" + repr(combo), 0
     try:
-        v, a, b = 1, 2, 3
-        h = w.rng.randbytes(20 if sha1 else 32)
-        reg_name, adv_name = ("attribute", "attribute") if name_ok is True else ("attribute", "name1") if name_ok is False \
-            else name_ok
-        w.ev_reg(v, h, reg_name, b if reg_for_other else a, md_reg)
-        if reg_for_other:
-            # the requester holds a different, valid registration (the case the unit tests never combine)
-            h2 = w.rng.randbytes(32)
-            w.ev_reg(v, h2, "attribute", a, None)
-            w.ev_advert(a, v, h2, "attribute", None)
-            g0 = Gen(w, [h, h2])
-            g0.flush()
-        w.ev_advance(age)
-        w.ev_advert(a, v, h, adv_name, md_adv)
-        pk = [e for e in w.queue if e.kind == 1 and e.src == a]
-        g = Gen(w, [h])
-        g.flush()
-        for e in pk:
-            w.ev_deliver(e, replayed=True)
-        g.flush()
+        try:
+            v, a, b = 1, 2, 3
+            h = w.rng.randbytes(20 if sha1 else 32)
+            reg_name, adv_name = ("attribute", "attribute") if name_ok is True else ("attribute", "name1") if name_ok is False \
+                else name_ok
+            w.ev_reg(v, h, reg_name, b if reg_for_other else a, md_reg)
+            if reg_for_other:
+                # the requester holds a different, valid registration (the case the unit tests never combine)
+                h2 = w.rng.randbytes(32)
+                w.ev_reg(v, h2, "attribute", a, None)
+                w.ev_advert(a, v, h2, "attribute", None)
+                g0 = Gen(w, [h, h2])
+                g0.flush()
+            w.ev_advance(age)
+            w.ev_advert(a, v, h, adv_name, md_adv)
+            pk = [e for e in w.queue if e.kind == 1 and e.src == a]
+            g = Gen(w, [h])
+            g.flush()
+            for e in pk:
+                w.ev_deliver(e, replayed=True)
+            g.flush()
+        except InfraError:
+            raise
+        except Exception as exc:
+            w.observation_failed = "%s: %s" % (type(exc).__name__, exc)
+            ctx.count("world:observation-failed")
     finally:
         for n in list(w.nodes.values()) + w.retired:
             await n.stop()
@@ -1563,6 +1627,8 @@ def run_matrix(ctx: Ctx, use_model: bool):
                                    [0, 300, 300.125, 301], [False, True] if ctx.thorough() or ctx.searching else [False])
         for i, combo in enumerate(combos):
             w = loop.run_until_complete(run_matrix_world(ctx, loop, use_model, combo, 1000 + i))
+            if w.observation_failed:
+                ctx.disagree("the harness could not observe the implementation: " + w.observation_failed, {"matrix": repr(combo)})
             if use_model:
                 compare(ctx, w, ctx.driver().batch(w.lines))
             ctx.case(("matrix", combo), w.nontrivial)
@@ -1592,7 +1658,9 @@ REQUIRED_CLASSES = (
     + ["forged-out-of-order:forged", "forged-out-of-order:honest-control", "craft:forged-link:position=last",
        "craft:forged-link:position=inner", "bad-token-then-restart:orphan", "bad-token-then-restart:other-subjects-token",
        "orphan-flood:over-cap", "orphan-flood:within-cap", "advert:raised:RuntimeError", "advert:raised:TypeError",
-       "advert:credential-made", "disclosure:truncated", "disclosure:attestations=1", "reg:name=non-str",
+       "advert:credential-made", "deliver:via-address-of-another-key",
+       "request_missing:via-other-address:requester-unpermitted:address-permitted",
+       "request_missing:via-other-address:requester-permitted:address-unpermitted", "disclosure:truncated", "disclosure:attestations=1", "reg:name=non-str",
        "reg:md=fixed-without-json-form", "reg:md=none", "reg:md=fixed", "advance:fractional", "advance:whole",
        "ev:deliver:disclose:replay", "oracle:attest-judged", "oracle:row-judged:own", "oracle:row-judged:from-attest-msg",
        "oracle:row-judged:from-disclosure", "oracle:handout-judged:missing_response:tokens",
@@ -1615,7 +1683,7 @@ def run(ctx: Ctx):
     if ctx.replay_input is not None:
         return replay(ctx, ctx.replay_input)
     run_matrix(ctx, ctx.model_ok)
-    run_worlds(ctx, ctx.scale(204, 3000), ctx.model_ok)
+    run_worlds(ctx, ctx.scale(216, 3006), ctx.model_ok)
     if ctx.model_ok:
         require_classes(ctx)
 
